@@ -260,6 +260,12 @@ func (fs FactSet) truth(c ssa.Value) (bool, bool) {
 			return !v, true
 		}
 	}
+	// a fact on `c == true`, `c != false`, `!c` ... determines c
+	for cond, pol := range fs {
+		if inner, neg := unwrapBool(cond); inner == c && inner != cond {
+			return pol != neg, true
+		}
+	}
 	if b, ok := constBool(c); ok {
 		return b, true
 	}
@@ -399,22 +405,47 @@ func (fs FactSet) CallResultNonNil(c *ssa.Call, idx int) bool {
 // CallBool: the boolean result idx of call c has a known truth value.
 func (fs FactSet) CallBool(c *ssa.Call, idx int) (bool, bool) {
 	for cond, pol := range fs {
-		v := cond
-		neg := false
-		for {
-			if u, ok := v.(*ssa.UnOp); ok && u.Op == token.NOT {
-				v = u.X
-				neg = !neg
-				continue
-			}
-			break
-		}
+		v, neg := unwrapBool(cond)
 		cc, i, ok := asCall(resolveCell(v))
 		if ok && cc == c && i == idx {
 			return pol != neg, true
 		}
 	}
 	return false, false
+}
+
+// unwrapBool strips negations and comparisons with boolean constants: !x, x == false, x != true …
+// returning the innermost value and whether the wrapper inverts it.
+func unwrapBool(v ssa.Value) (ssa.Value, bool) {
+	neg := false
+	for i := 0; i < 6; i++ {
+		switch x := v.(type) {
+		case *ssa.UnOp:
+			if x.Op == token.NOT {
+				v, neg = x.X, !neg
+				continue
+			}
+		case *ssa.BinOp:
+			if x.Op == token.EQL || x.Op == token.NEQ {
+				if b, isC := constBool(x.Y); isC && isBool(x.X.Type()) {
+					if (x.Op == token.EQL) != b {
+						neg = !neg
+					}
+					v = x.X
+					continue
+				}
+				if b, isC := constBool(x.X); isC && isBool(x.Y.Type()) {
+					if (x.Op == token.EQL) != b {
+						neg = !neg
+					}
+					v = x.Y
+					continue
+				}
+			}
+		}
+		break
+	}
+	return v, neg
 }
 
 // Describe renders a fact set deterministically (evidence / reports).
